@@ -356,6 +356,27 @@ Arguments schema_diff {D1 D2}.
 (** model text vs observed text: the same literal up to ignored tokens and object field order
     (the property speaks about what the text denotes, not about its layout); texts that are not
     literals must be byte-identical *)
+(** A text with a character above U+FFFF is not a literal of the dialect (known class
+    default-string-astral), yet the fields of an input object inside it still come in Go's map
+    order.  For this comparison only, every byte >= 240 and the (up to three) continuation bytes
+    after it are replaced by private-use characters the reader accepts: [pu k] is U+E000 + k,
+    lead byte b -> U+E000 + (b - 240), continuation byte c -> U+E020 + (c - 128); a U+E000..U+E07F
+    already in the text is prefixed with the escape U+E060, so the replacement is injective and
+    touches nothing but string characters. *)
+Definition pu (k : N) : bytes :=
+  if N.ltb k 64 then [238; 128; 128 + k]%N else [238; 129; 128 + (k - 64)]%N.
+Fixpoint deastral (pending : nat) (bs : bytes) : bytes :=
+  match bs with
+  | [] => []
+  | b :: r =>
+      if (match pending with O => false | _ => true end) && N.leb 128 b && N.leb b 191 then
+        (pu (32 + (b - 128)) ++ deastral (Nat.pred pending) r)%list
+      else if N.leb 240 b then (pu (b - 240) ++ deastral 3 r)%list
+      else if N.eqb b 238 && (match r with c :: _ => N.eqb c 128 || N.eqb c 129 | [] => false end) then
+        (pu 96 ++ b :: deastral 0 r)%list
+      else b :: deastral 0 r
+  end.
+
 Definition default_agrees (obs : option bytes) (m : dflt) : bool :=
   match obs, m with
   | None, DNone | None, DError => true
@@ -363,7 +384,11 @@ Definition default_agrees (obs : option bytes) (m : dflt) : bool :=
       bytes_eqb a b ||
       match parse_literal a, parse_literal b with
       | Some x, Some y => lit_eqv x y
-      | _, _ => false
+      | _, _ =>
+          match parse_literal (deastral 0 a), parse_literal (deastral 0 b) with
+          | Some x, Some y => lit_eqv x y
+          | _, _ => false
+          end
       end
   | _, _ => false
   end.
